@@ -39,12 +39,14 @@ Definition m_addx af bf rf a b := oz (fxadd af bf rf a b).
 Definition m_subx af bf rf a b := oz (fxsub af bf rf a b).
 Definition s_rej (a b : Z) : option Z := Some (-1).
 Definition m_sign F a (_ : Z) := oz (fxsign F a).    Definition s_sign F a (_ : Z) := Some (spec_sign (wd F) a).
-Definition m_mul af bf rf a b := oz (fxmul af bf rf a b).
-(* spec column of the multiplier: raises below bit 0; no claim exactly on finding C14-F1 (window above the product AND negative product) *)
-Definition s_mul af bf rf a b : option Z :=
+(* multiplier: pw = the product width READ OFF the real block (width of the wire Mul drives); fxmul_w pw is the model for any pw *)
+Definition m_mul pw af bf rf a b := oz (fxmul_w pw af bf rf a b).
+(* spec column: raises below bit 0; no claim exactly on finding C14-F1 (pre-repair wiring pw = wa+wb, window above the product AND
+   negative product); with the repaired wiring pw = max(wa+wb, low+wr) there is no exempt region *)
+Definition s_mul pw af bf rf a b : option Z :=
   let low := ffrac af + ffrac bf - ffrac rf in
   if low <? 0 then Some (-1)
-  else if (wd af + wd bf <? low + wd rf) && (fxint (wd af) a * fxint (wd bf) b <? 0) then None
+  else if (pw =? wd af + wd bf) && (pw <? low + wd rf) && (fxint (wd af) a * fxint (wd bf) b <? 0) then None
   else Some (spec_mul (wd af) (ffrac af) (wd bf) (ffrac bf) (wd rf) (ffrac rf) a b).
 Definition m_cmp F a b := oc (fxcmp F F a b).
 Definition s_cmp F a b : option Z :=
@@ -55,7 +57,7 @@ Definition s_cmpeq F a b := Some (b2z (fxint (wd F) a =? fxint (wd F) b)).
 (* helper.FixedPoint: the claim is agreement with the block, for every format (no integer bits included, /repo 6fe767a) *)
 Definition m_hadd F a b := oz (fxh_add F a b).       Definition s_hadd F a b := Some (m_add F a b).
 Definition m_hsub F a b := oz (fxh_sub F a b).       Definition s_hsub F a b := Some (m_sub F a b).
-Definition m_hmul F a b := oz (fxh_mult F a b).      Definition s_hmul F a b := Some (m_mul F F F a b).
+Definition m_hmul F a b := oz (fxh_mult F a b).      Definition s_hmul F a b := Some (oz (fxmul_fixed F F F a b)).
 '''
 
 
@@ -98,12 +100,19 @@ def oracle(block, fmts, a, b):
     raise KeyError(block)
 
 
-def f1_region(block, fmts, a, b):
-    """finding C14-F1: FixedPointMult, result window above bit wa+wb-1, negative product"""
+def mul_widths(fmts):
+    """(pre-repair product width wa+wb, repaired product width max(wa+wb, low+wr)) of FixedPointMult"""
+    af, bf, rf = fmts
+    old = width(af) + width(bf)
+    return old, max(old, af[2] + bf[2] - rf[2] + width(rf))
+
+def f1_region(block, fmts, a, b, pw):
+    """finding C14-F1: FixedPointMult wired with a wa+wb-bit product, result window above bit wa+wb-1, negative product"""
     if block != 'mul': return False
     af, bf, rf = fmts
     low = af[2] + bf[2] - rf[2]
-    return low >= 0 and low + width(rf) > width(af) + width(bf) and dec(af, a) * dec(bf, b) < 0
+    old, _ = mul_widths(fmts)
+    return pw == old and low >= 0 and low + width(rf) > old and dec(af, a) * dec(bf, b) < 0
 
 
 # ------------------------------------------------------------------ the real implementation
@@ -112,6 +121,7 @@ class Impl:
     def __init__(self, py4hw, block, fmts):
         self.block, self.fmts, self.py4hw = block, fmts, py4hw
         self.dead = None
+        self.pw, self.uniform = None, False
         fx = py4hw.logic.arithmetic_fxp
         if block in ('hadd', 'hsub', 'hmul'):
             return
@@ -123,7 +133,8 @@ class Impl:
                     self.A, self.B, self.R = hw.wire('a', width(af)), hw.wire('b', width(bf)), hw.wire('r', width(rf))
                     cls = {'add': fx.FixedPointAdd, 'addx': fx.FixedPointAdd, 'sub': fx.FixedPointSub, 'subx': fx.FixedPointSub,
                            'mul': fx.FixedPointMult}[block]
-                    cls(hw, 'dut', self.A, af, self.B, bf, self.R, rf)
+                    dut = cls(hw, 'dut', self.A, af, self.B, bf, self.R, rf)
+                    if block == 'mul': self.pw, self.uniform = self.probe_pw(dut)
                 elif block in ('sign', 'signx'):
                     F = fmts[0]
                     self.A, self.B, self.R = hw.wire('a', width(F)), None, hw.wire('s', 1)
@@ -138,6 +149,14 @@ class Impl:
             self.dead = EXC                      # documented: mixed formats / sign bits != 1 are asserted away
         except ValueError:
             self.dead = EXC                      # Simulator() already propagates once: Range raises for a window below bit 0
+
+    @staticmethod
+    def probe_pw(dut):
+        """(width of the wire the Mul child drives, do the SignExtend children drive wires of that same width?) of a real FixedPointMult"""
+        wm = [c.r.getWidth() for c in dut.children.values() if type(c).__name__ == 'Mul']
+        we = [c.r.getWidth() for c in dut.children.values() if type(c).__name__ == 'SignExtend']
+        if len(wm) != 1: return None, False
+        return wm[0], len(we) == 2 and all(w == wm[0] for w in we)
 
     def eval(self, a, b):
         if self.dead is not None: return self.dead
@@ -163,9 +182,9 @@ class Impl:
 
 def fl(F): return '(%d, %d, %d)' % F
 
-def coq_fun(block, fmts):
+def coq_fun(block, fmts, pw=None):
     """(model, spec) Gallina functions Z -> Z -> _ for a table"""
-    if block == 'mul': a = ' '.join(fl(F) for F in fmts); return 'm_mul ' + a, 's_mul ' + a
+    if block == 'mul': a = '%d ' % pw + ' '.join(fl(F) for F in fmts); return 'm_mul ' + a, 's_mul ' + a
     if block in ('addx', 'subx'): a = ' '.join(fl(F) for F in fmts); return 'm_%s %s' % (block, a), 's_rej'
     if block == 'signx': return 'm_sign ' + fl(fmts[0]), 's_rej'
     return 'm_%s %s' % (block, fl(fmts[0])), 's_%s %s' % (block, fl(fmts[0]))
@@ -181,6 +200,9 @@ class Sweep:
         self.failed = False       # an impl != oracle violation was reported
         self.n_rows = 0
         self.bulk = 0
+        self.wiring = {}          # FixedPointMult tables by class: covered by C14_mul_any_product_width / pre-repair C14-F1 region / other
+        self.formula = {}         # ... and, where the two differ, which width formula the real block follows
+        self.coq_reported = False
 
     def operands(self, block, fmts, rows):
         if rows is not None: return rows
@@ -195,6 +217,22 @@ class Sweep:
         self.seen_tables.add(key)
         ctx = self.ctx
         impl = Impl(self.py4hw, block, fmts)
+        pw = pw_m = None
+        if block == 'mul':
+            af, bf, rf = fmts
+            old, new = mul_widths(fmts)
+            low = af[2] + bf[2] - rf[2]
+            pw_m = impl.pw                # width of the real product wire: decides whether the C14-F1 exemption can apply at all
+            if not impl.uniform or pw_m is None: cls, pw = 'other', old             # model the wa+wb wiring; the differential decides
+            elif low < 0 or pw_m >= max(width(af), width(bf), low + width(rf)): cls, pw = 'covered', pw_m      # C14_mul_any_product_width applies
+            elif pw_m == old: cls, pw = 'pre-repair, window above the product', pw_m                            # C14-F1 region: C14_mul_wide_window_*
+            else: cls, pw = 'other', pw_m
+            self.wiring[cls] = self.wiring.get(cls, 0) + 1
+            f = 'wa+wb' if pw_m == old else 'max(wa+wb,low+wr)' if pw_m == new else 'neither'
+            if old != new: self.formula[f] = self.formula.get(f, 0) + 1
+            if cls == 'other':
+                self.ctx.notes.setdefault('unknown_mult_wiring', {'formats': [list(F) for F in fmts], 'product_wire_width': pw_m, 'sign-extended operands same width': impl.uniform,
+                                                                  'wa+wb': old, 'max(wa+wb,low+wr)': new})
         ops = self.operands(block, fmts, rows)
         out = []
         nontriv = 0
@@ -205,7 +243,7 @@ class Sweep:
             exp = oracle(block, fmts, a, b)
             if exp is not None and a != 0 and (b != 0 or unary): nontriv += 1
             if exp is not None and r != exp:
-                if f1_region(block, fmts, a, b):
+                if f1_region(block, fmts, a, b, pw_m):
                     kf = [k for k in ctx.known if k['id'] == 'C14-F1' and k.get('status') == 'known']
                     if kf:
                         ctx.known_finding('C14-F1', kf[0]['text'])
@@ -228,7 +266,7 @@ class Sweep:
                         'oracle': oracle(block, fmts, *ops[k]),
                         'decoded_operands': [str(dec(fmts[0], ops[k][0])), str(dec(fmts[1] if block == 'mul' else fmts[0], ops[k][1]))]})
         if to_coq:
-            self.tables.append((block, fmts, rows is None, list(ops), out))
+            self.tables.append((block, fmts, rows is None, list(ops), out, pw))
 
     # ---- Coq side: model and spec columns for the queued tables
     def flush(self, tag):
@@ -238,8 +276,8 @@ class Sweep:
         batch, size, k = [], 0, 0
         files, extra, opsdef = [], [], {}         # per file: items, extra prelude (operand lists shared by the tables of one format)
         for t in self.tables:
-            block, fmts, exh, ops, out = t
-            model, spec = coq_fun(block, fmts)
+            block, fmts, exh, ops, out, pw = t
+            model, spec = coq_fun(block, fmts, pw)
             if exh and block not in ('sign', 'signx'):
                 wa = width(fmts[0]); wb = width(fmts[1]) if block == 'mul' else wa
                 rows = 'rows_exh %d %d [%s]' % (wa, wb, ';'.join(zlit(r) for r in out))
@@ -269,17 +307,18 @@ class Sweep:
             if isinstance(res, RuntimeError):
                 ctx.notes['coq_side_unavailable'] = str(res)[-1500:]
                 return None
-            for n, _, (block, fmts, exh, ops, out) in batch:
+            for n, _, (block, fmts, exh, ops, out, _pw) in batch:
                 for row in res[n]:
                     a, b, r, m, s = row
                     nbad += 1
                     exp = oracle(block, fmts, a, b)
                     rec = {'block': block, 'formats': [list(F) for F in fmts], 'a': a, 'b': b,
                            'impl': r, 'coq_model': m, 'coq_spec': s, 'python_oracle': exp}
-                    if nbad > 1 or self.failed:
+                    if nbad > 1 or self.failed or self.coq_reported:
                         ctx.notes.setdefault('more_coq_mismatches', [])
                         if len(ctx.notes['more_coq_mismatches']) < 10: ctx.notes['more_coq_mismatches'].append(rec)
                         continue
+                    self.coq_reported = True
                     if m != r:
                         rec['what'] = ('Coq model (Model/Fxp.v over the regenerated primitives) and the real block disagree: correspondence broken; '
                                        'the real block agrees with the rational oracle on every operand tried')
@@ -395,13 +434,20 @@ def run(ctx):
     ctx.notes['tables'] = len(sw.seen_tables)
     ctx.notes['rows_total'] = sw.n_rows
 
-    coq_side_ok = st is not None and st2 is not None
+    wg = sw.wiring
+    wiring = ('unknown' if wg.get('other') else 'pre-repair: product width wa+wb (finding C14-F1)' if wg.get('pre-repair, window above the product')
+              else 'every configuration tried computes the product on enough bits for its window (repaired)')
+    ctx.notes['mult_wiring'] = {'tables_by_class': wg, 'width_formula_where_they_differ': sw.formula, 'wiring': wiring,
+                                'theorems': 'covered: C14_mul_any_product_width at the width read off the real block (+ C14_mul_fixed for the max formula); '
+                                            'pre-repair region: C14_mul_wide_window_refuted / _negative_wrong / _nonneg_any_window'}
+    coq_side_ok = st is not None and st2 is not None and wiring != 'unknown'
     nbad = (st or 0) + (st2 or 0)
     tie_ok = (not missing) and r['ok'] and coq_side_ok and nbad == 0
     if not tie_ok and not ctx.violations:
         # proof obligation / translation / Coq evaluation broken and the whole sweep found no operand where the real block is wrong
         what = ('translator rejected %s: %s' % (missing, {k: ctx.gen['errors'].get(k) for k in missing}) if missing else
                 'proof obligation no longer checks: %s in %s' % (r.get('lemma'), r.get('file')) if not r['ok'] else
+                'FixedPointMult is wired in a way no theorem covers (product wire too narrow for the window and not the known wa+wb wiring, or operands extended to other widths): %s' % ctx.notes.get('unknown_mult_wiring', wg) if wiring == 'unknown' else
                 'the Coq model/spec could not be evaluated: %s' % ctx.notes.get('coq_side_unavailable', '')[-600:])
         ctx.violation({'what': what + '; the real blocks agree with the rational oracle on every operand tried',
                        'theorem': r.get('lemma'), 'file': r.get('file'), 'coq_error': r.get('msg')}, found_input=False)
